@@ -920,6 +920,28 @@ func init() {
 			return VTuple{VOpaque{Kind: "iter", Data: &iterState{entries: hits}}, nilErr()}
 		}
 		m[mu+"MatchExact"] = match
+		// Iterate over an index with a prefixed pair range (reference key = prefix), primary keys in order
+		m[mu+"Iterate"] = func(ex *Exec, fr *frame, cc *ssa.CallCommon, a []Value) Value {
+			mi := multiOf(a[0])
+			spec := &rangeSpec{}
+			if ri, ok := a[2].(VIface); ok && ri.Typ != nil {
+				spec = rangeOf(ri.V)
+			} else if rp, ok := a[2].(VPtr); ok && rp.O != nil {
+				spec = rangeOf(rp)
+			}
+			if len(spec.prefix) != 1 || spec.startIncl != nil || spec.startExcl != nil || spec.endIncl != nil || spec.endExcl != nil {
+				panic(unsupported{"index Iterate with this range"})
+			}
+			var hits []collEntry
+			for _, e := range mi.parent.entries {
+				ref := ex.refKeyOf(fr, cc, mi, e)
+				if ex.decide(ex.collKeyEq(ref, spec.prefix[0])) {
+					hits = append(hits, collEntry{key: e.key, val: e.val})
+				}
+			}
+			ex.sortEntries(hits, spec.descending)
+			return VTuple{VOpaque{Kind: "iter", Data: &iterState{entries: hits}}, nilErr()}
+		}
 		collect := func(kv bool) intrinsic {
 			return func(ex *Exec, fr *frame, cc *ssa.CallCommon, a []Value) Value {
 				s := iterOf(a[2])
